@@ -474,6 +474,40 @@ return a, (b)
 """
 
 
+def compared_attributes(n) -> list[str]:
+    """which attributes `==` looks at, found by BEHAVIOUR: an attribute is compared iff giving a shallow copy of the node a fresh, incomparable value
+    for it makes the copy unequal to the node (robust against renaming the private scan method of ASTNode)"""
+    import copy
+
+    class Fresh:
+        def __eq__(self, other):
+            return False
+        __hash__ = object.__hash__
+
+    out = []
+    for k in dir(n):
+        if k.startswith("__"):
+            continue
+        try:
+            v = getattr(n, k)
+        except Exception:  # noqa: BLE001
+            continue
+        if callable(v):
+            continue
+        b = copy.copy(n)
+        try:
+            setattr(b, k, Fresh())
+        except Exception:  # noqa: BLE001
+            continue       # read-only property: cannot differ between two nodes independently of the stored attributes
+        try:
+            same = (n == b)
+        except Exception:  # noqa: BLE001
+            same = False
+        if not same:
+            out.append(k)
+    return out
+
+
 def extract_schema(rep: Report) -> str:
     import tumfl
     from tumfl.AST.ASTNode import ASTNode
@@ -511,7 +545,7 @@ def extract_schema(rep: Report) -> str:
     for n in nodes:
         cls = type(n).__name__
         d = by_cls.setdefault(cls, {"slots": {}, "compared": None, "linked": {}, "walked": {}, "replaced": {}, "override": "parent" in type(n).__dict__})
-        compared = sorted(i for i in n._ASTNode__dir() if not callable(getattr(n, i)))
+        compared = sorted(compared_attributes(n))
         if d["compared"] is None:
             d["compared"] = compared
         elif d["compared"] != compared:
@@ -636,6 +670,7 @@ def extract_sharedstate(rep: Report) -> str:
         mod = ".".join(f.relative_to(REPO).with_suffix("").parts)
         tree = pyast.parse(f.read_text())
         module_names = set()
+        class_names = {c.name for c in pyast.walk(tree) if isinstance(c, pyast.ClassDef)}
         for node in tree.body:
             targets = []
             if isinstance(node, pyast.Assign):
@@ -679,8 +714,12 @@ def extract_sharedstate(rep: Report) -> str:
                     if isinstance(fn, pyast.Name):
                         d["calls"].add(fn.id)
                         # setattr/delattr on anything but self writes to an argument, a class or a module: shared state
-                        if fn.id in ("setattr", "delattr") and n.args and root_name(n.args[0]) != "self":
-                            d["writes"].append((f"{fn.id}({pyast.unparse(n.args[0])[:40]}, ...)", n.lineno))
+                        # setattr/delattr on a PARAMETER other than self (an argument object such as the style or the tree), on a class or on a module-level
+                        # name writes shared state; on a local variable (an element of one of self's own lists, say) it does not
+                        if fn.id in ("setattr", "delattr") and n.args:
+                            r0 = root_name(n.args[0])
+                            if r0 != "self" and (r0 in params or r0 in module_names or r0 in class_names or (r0 and r0[:1].isupper())):
+                                d["writes"].append((f"{fn.id}({pyast.unparse(n.args[0])[:40]}, ...)", n.lineno))
                         if fn.id in ("globals", "vars", "locals"):
                             d["writes"].append((f"{fn.id}() used", n.lineno))
                     elif isinstance(fn, pyast.Attribute):
